@@ -345,6 +345,111 @@ static void large_buffer_case(int codec)
     mc::outcome(mc::fmt("%s fits=%d ok=%d%d%d overflows=%zu", gs::codec_name(codec), fits, ok0, ok1, ok2, run.overflows.size()));
 }
 
+// ---- a transmission cut at every byte position, then complete frames -----------------------------------------
+// frame(p0) truncated after k bytes for EVERY k (in particular right behind the start marker, right behind an escape
+// byte, right in front of the stop marker), followed by frame(p1) frame(p2).  p0 ranges over all payloads of length
+// 1..3 over {'a', START, STOP, STUB}; (p1,p2) over the 16 pairs of the small payload set; capacities {3, 8}.
+// START != STOP: both complete frames must come out; START == STOP: the second must ("from the second at the latest").
+static void cut_then_frames_case(int codec)
+{
+    gs::Markers M = gsref::golden(codec);
+    std::vector<uint8_t> sy = {'a', M.start, M.stub};
+    if (!M.same())
+        sy.push_back(M.stop);
+    int k = (int)sy.size();
+    int npay = k + k * k + k * k * k;
+    int first = mc::choose(npay * 2);
+    int cap = CAPS[first & 1];
+    int idx = first >> 1;
+    Bytes p0;
+    if (idx < k)
+        p0 = {sy[idx]};
+    else if (idx < k + k * k)
+        p0 = {sy[(idx - k) / k], sy[(idx - k) % k]};
+    else
+    {
+        int j = idx - k - k * k;
+        p0 = {sy[j / (k * k)], sy[j / k % k], sy[j % k]};
+    }
+    Bytes f0 = gsref::encode(M, p0);
+    mc::describe("codec=%s cap=%d frame(%s)=%s cut after every 0..%zu bytes, then frame(p1) frame(p2) for all 16 pairs", gs::codec_name(codec), cap,
+                 shx(p0).c_str(), shx(f0).c_str(), f0.size() - 1);
+    mc::nontrivial();
+    std::vector<Bytes> P = payload_set(M);
+    uint64_t n = 0;
+    for (size_t cut = 0; cut < f0.size(); cut++)
+        for (const Bytes &p1 : P)
+            for (const Bytes &p2 : P)
+            {
+                n++;
+                Rig rig(codec, cap, !M.same());
+                Run run;
+                feed_all(rig, Bytes(f0.begin(), f0.begin() + cut), run);
+                size_t s1 = rig.stream.size();
+                feed_all(rig, gsref::encode(M, p1), run);
+                size_t s2 = rig.stream.size();
+                feed_all(rig, gsref::encode(M, p2), run);
+                bool ok1 = true;
+                if (!M.same() || cut == 0)
+                    ok1 = expect_frame(rig, run, s1, s2 - 1, p1, "resync.cut_transmission", "first_frame");
+                bool ok2 = expect_frame(rig, run, s2, rig.stream.size() - 1, p2, "resync.cut_transmission", "second_frame");
+                mc::outcome(mc::fmt("%s cut ok=%d%d deliveries=%zu", gs::codec_name(codec), ok1, ok2, run.deliveries.size()));
+            }
+    mc::more_cases(n - 1, n - 1);
+}
+
+// ---- two receivers of different alphabets alive in one process ------------------------------------------------
+// Anything a receiver keeps outside its own object (a function-local static, a cached comparison) is decided by the
+// receiver that runs first in the process.  Every case gets a FRESH worker process (mc::request_restart), creates two
+// receivers, and feeds them alternately, byte by byte, each with its own stream garbage || frame(p1) || frame(p2);
+// which of the two is fed first is a case dimension.  Expectations per receiver as in garbage_prefix.
+static void two_alphabets_case()
+{
+    static const int PAIR[3][2] = {{gs::CFG_V1, gs::CFG_V0}, {gs::CFG_V1, gs::LEGACY}, {gs::CFG_V0, gs::LEGACY}};
+    int first = mc::choose(3 * 2 * 6 * 6);
+    mc::request_restart(); // the next case runs in a process in which no receiver has run yet
+    int gb = first % 6, ga = first / 6 % 6, order = first / 36 % 2, pr = first / 72;
+    int codec[2] = {PAIR[pr][order], PAIR[pr][1 - order]}; // codec[0] receives the first byte of the process
+    int gsel[2] = {ga, gb};
+    Bytes stream[2];
+    size_t s1[2], s2[2];
+    std::vector<Bytes> pay[2];
+    for (int t = 0; t < 2; t++)
+    {
+        gs::Markers M = gsref::golden(codec[t]);
+        Bytes G[6] = {{}, {M.start}, {M.start, 'a'}, {M.start, M.stub}, {'a', M.stub}, {M.start, 'a', M.start, 'a'}};
+        stream[t] = G[gsel[t]];
+        pay[t] = {Bytes{M.start, 'a'}, Bytes{M.stub}};
+        s1[t] = stream[t].size();
+        for (uint8_t c : gsref::encode(M, pay[t][0]))
+            stream[t].push_back(c);
+        s2[t] = stream[t].size();
+        for (uint8_t c : gsref::encode(M, pay[t][1]))
+            stream[t].push_back(c);
+    }
+    mc::describe("fresh process; receiver %s (stream %s) is fed first, alternating byte by byte with receiver %s (stream %s)", gs::codec_name(codec[0]),
+                 shx(stream[0]).c_str(), gs::codec_name(codec[1]), shx(stream[1]).c_str());
+    mc::nontrivial();
+    Rig *rig[2] = {new Rig(codec[0], 8, !gsref::golden(codec[0]).same()), new Rig(codec[1], 8, !gsref::golden(codec[1]).same())};
+    Run run[2];
+    for (size_t i = 0; i < stream[0].size() || i < stream[1].size(); i++)
+        for (int t = 0; t < 2; t++)
+            if (i < stream[t].size())
+                feed_all(*rig[t], Bytes(1, stream[t][i]), run[t]);
+    for (int t = 0; t < 2; t++)
+    {
+        bool same = gsref::golden(codec[t]).same();
+        const char *scen = t == 0 ? "two_alphabets.fed_first" : "two_alphabets.fed_second";
+        bool ok1 = true;
+        if (!same || gsel[t] == 0)
+            ok1 = expect_frame(*rig[t], run[t], s1[t], s2[t] - 1, pay[t][0], scen, "first_frame");
+        bool ok2 = expect_frame(*rig[t], run[t], s2[t], stream[t].size() - 1, pay[t][1], scen, "second_frame");
+        mc::outcome(mc::fmt("%s %s ok=%d%d", gs::codec_name(codec[t]), scen, ok1, ok2));
+    }
+    delete rig[0];
+    delete rig[1];
+}
+
 // the library's own context objects / macros must hold the protocol's constants: all traffic here is built from the
 // pinned constants (gsref::golden), so a drifted alphabet also shows up as lost frames, and here by name
 static void alphabet_constants_case()
@@ -361,10 +466,12 @@ static void alphabet_constants_case()
 MC_INIT
 {
     mc::add_check("alphabet_constants", alphabet_constants_case);
+    mc::add_check("two_alphabets_one_process", two_alphabets_case);
     for (int codec = 0; codec < gs::NCODEC; codec++)
     {
         mc::add_check(mc::fmt("garbage_prefix.%s", gs::codec_name(codec)), [codec] { garbage_prefix_case(codec); });
         mc::add_check(mc::fmt("fault_sequences.%s", gs::codec_name(codec)), [codec] { fault_case(codec); });
         mc::add_check(mc::fmt("large_buffers.%s", gs::codec_name(codec)), [codec] { large_buffer_case(codec); });
+        mc::add_check(mc::fmt("cut_then_frames.%s", gs::codec_name(codec)), [codec] { cut_then_frames_case(codec); });
     }
 }
